@@ -9,7 +9,7 @@
 (* CircularQueues are sequences (see CircularQueue.tla), time 0 is the zero  *)
 (* time.Time.  The properties compare the outputs with the schedule-free     *)
 (* reference pairing of JURef.                                               *)
-EXTENDS JURef
+EXTENDS JoinBatch
 
 CONSTANTS
     Inputs,     \* set of parent tuples to explore (model checking)
@@ -48,8 +48,8 @@ OnlyReady(g) == \E s \in Srcs : ~(g.head[s] > g.oldest)
 (* JoinIntoBatch always returns a batch (possibly without points).            *)
 JoinedOut(gid, rt, js) ==
     IF cfg.edge = "batch"
-    THEN << [t |-> rt, g |-> gid,
-             pts |-> RefBatchPoints([s \in Srcs |-> IF js[s] = 0 THEN [v |-> 0] ELSE MsgOf(js[s])], cfg)] >>
+    THEN LET sq == JoinIntoBatch([s \in Srcs |-> IF js[s] = 0 THEN [v |-> 0] ELSE MsgOf(js[s])], cfg)   \* JoinBatch.tla: the code's loop
+         IN << [t |-> rt, g |-> gid, pts |-> Range(sq), seq |-> sq] >>
     ELSE IF cfg.fill = "none" /\ ~Ready(js) THEN <<>>
     ELSE << [t |-> rt, g |-> gid, vals |-> [s \in Srcs |-> IF js[s] = 0 THEN FillVal(cfg) ELSE js[s]]] >>
 
